@@ -70,10 +70,54 @@ def gen_case(r):
     return ops
 
 
+def gen_probe_case(r):
+    """Directed family: k ordinary segments + one probe as the newest; everything sent (probe possibly
+    retransmitted); a (selective) ACK pattern chosen relative to the real queue; then the probe pops."""
+    una = r.choice([1, 100, 65534, r.randrange(65536)])
+    ops = [f"seg new {una}"]
+    k = r.randrange(0, 5)
+    now = 10_000_000
+    for i in range(k):
+        ops.append(f"seg enq {r.choice([100, 528])} 0")
+    ops.append(f"seg enq {r.choice([600, 991])} 1")
+    n = k + 1
+    for i in range(n):
+        now += 1000
+        ops.append(f"seg sent {(una + i) % 65536} {now}")
+    probe = (una + k) % 65536
+    for _ in range(r.choice([0, 0, 1, 2])):
+        now += 200_000_000
+        ops.append(f"seg sent {probe} {now}")
+    for _ in range(r.randrange(0, 3)):
+        # ack some prefix j (j may be 0 = duplicate ack) and SACK a subset of what follows the hole
+        j = r.randrange(0, n)
+        ack = (una + j - 1) % 65536
+        bits = [0] * 8
+        style = r.random()
+        for b in range(0, n - j - 1):          # bit b <-> seq ack+2+b = una + j + 1 + b
+            seq_is_probe = (j + 1 + b) == k
+            if (style < 0.4 and seq_is_probe) or (style >= 0.4 and r.random() < 0.5):
+                bits[b // 8] |= 1 << (b % 8)
+        sack = "none" if r.random() < 0.2 else hx(bits)
+        now += 1_000_000
+        ops.append(f"seg ack {now} {ack} {sack}")
+    for _ in range(r.randrange(1, 4)):
+        c = r.random()
+        if c < 0.6:
+            ops.append(f"seg popexp {r.choice([1, 1, 0])} {r.choice([0, 0, 1, 2])}")
+        elif c < 0.8:
+            ops.append(f"seg popprobe {probe}")
+        else:
+            ops.append(f"seg enq {r.choice([100, 528])} 0")
+    ops.append("seg iter none")
+    return ops
+
+
 def gen_segs(P):
     def gen(seed, tier):
         r = P.rng_for(seed, "segs")
-        return [gen_case(r) for _ in range(P.scale(tier, 1500, 40000))]
+        n = P.scale(tier, 1500, 40000)
+        return [gen_case(r) for _ in range(n)] + [gen_probe_case(r) for _ in range(n // 2)]
     return gen
 
 
@@ -108,7 +152,8 @@ def oracle_segs(P):
         hits = []
         removed = 0
         abs_off = {}     # seq -> (absolute offset, size) while queued
-        delivered = set()   # seqs acked (cumulatively or selectively) that must never be listed again
+        sacked = set()      # seqs the peer selectively acknowledged while they were queued
+        prev_hdr = None
 
         def hit(what, text):
             hits.append({"sig": {"oracle": "segs", "what": what}, "text": text})
@@ -129,6 +174,23 @@ def oracle_segs(P):
                 removed, abs_off = 0, {}
             if t[1] == "ack":
                 removed += int(kv.get("bytes", 0))
+                if t[4] != "none" and prev_hdr and prev_hdr.get("first", "-") != "-":
+                    raw = bytes.fromhex(t[4]) if t[4] != "-" else b""
+                    raw = (raw + bytes(8))[:8]
+                    first, n = int(prev_hdr["first"]), int(prev_hdr["n"])
+                    ack = int(t[3])
+                    # only meaningful when the ack is just before the queue front or inside it
+                    d = (ack - first) % 65536
+                    if d < n or d == 65535:
+                        for b in range(64):
+                            if raw[b // 8] >> (b % 8) & 1:
+                                q = (ack + 2 + b) % 65536
+                                if (q - first) % 65536 < n:
+                                    sacked.add(q)
+            if t[1] == "popexp" and res.startswith("expired"):
+                popped = (int(res.split(":")[1]) + 1) % 65536
+                if popped in sacked:
+                    hit("delivered_probe_expired", f"`{op}` popped sequence number {popped} as an expired probe although the peer had selectively acknowledged it: it will be re-segmented and sent again, and its proven size is recorded as failed")
             if t[1] in ("popprobe", "popexp") and (res == "1" or res.startswith("expired")):
                 # a popped probe may be re-segmented: its sequence number is released
                 if t[1] == "popprobe":
@@ -149,6 +211,9 @@ def oracle_segs(P):
                 prev = v
             if views and hdr.get("first", "-") != "-" and views[0]["seq"] == int(hdr["first"]) and views[0]["off"] != 0:
                 hit("first_offset", f"after `{op}` the first unacked segment does not start at ring offset 0 ({views[0]['off']})")
+            prev_hdr = hdr
+            if t[1] == "new":
+                sacked = set()
             if len(hits) >= 3:
                 break
         return hits[:3]
